@@ -11,6 +11,8 @@ inductive Edit
   | addTriggers (ts : List RTrigger)
   | upsertUnit (u : RUnit)
   | addWavs (paths : List Bytes)
+  /-- `RichChkEditor.replace_chk_section` with a hand-built `RichUprpSection` -/
+  | replaceUprp (cs : List RCuwp)
   /-- save to bytes and load again -/
   | reload
   deriving Repr
@@ -22,6 +24,7 @@ def replaceSections (isTarget : RSection → Bool) (new : RSection) (secs : List
 def isTrig : RSection → Bool | .trig _ => true | _ => false
 def isUnis : RSection → Bool | .unis _ _ => true | _ => false
 def isWav : RSection → Bool | .wav _ => true | _ => false
+def isUprp : RSection → Bool | .uprp _ => true | _ => false
 
 /-- `RichTrigEditor.add_triggers`: new triggers go after the existing ones -/
 def addTriggers (new : List RTrigger) (secs : List RSection) : R (List RSection) :=
@@ -75,6 +78,7 @@ def applyEdit (cfg : RichCfg) (encTable : SecTable) (secs : List RSection) : Edi
   | .addTriggers ts => addTriggers ts secs
   | .upsertUnit u => upsertUnit u secs
   | .addWavs ps => addWavs cfg ps secs
+  | .replaceUprp cs => .ok (replaceSections isUprp (.uprp cs) secs)
   | .reload => match saveBytes cfg encTable secs with
     | .error e => .error e
     | .ok bs => loadBytes cfg bs
